@@ -26,7 +26,8 @@ ValFields(c) == {f \in ValidateFields : /\ (f = "index" => NU(c) >= 2)
                                         /\ (f \in {"sender", "publisher"} => NPeers(c) >= 3)}
 ValCases(c) ==
   UNION { UNION { { ValRec(c, lp[1], lp[2], u, f, IF f = "index" THEN (u + 1) % NU(c) ELSE u, sc[1], sc[2], nz) :
-                      sc \in {<<FALSE, FALSE>>, <<TRUE, FALSE>>, <<FALSE, TRUE>>}, nz \in BOOLEAN } :
+                      sc \in (IF f \in KeyFields THEN {<<FALSE, FALSE>>}   \* another key = another validator
+                              ELSE {<<FALSE, FALSE>>, <<TRUE, FALSE>>, <<FALSE, TRUE>>}), nz \in BOOLEAN } :
                   u \in Slots(c), f \in ValFields(c) } :
           lp \in {x \in Positions(NPeers(c)) \X Positions(NPeers(c)) : x[1] # x[2]} }
 
@@ -43,6 +44,7 @@ Table(c) ==
       val |-> ValCases(c),
       proto |-> [kind \in ProtoKinds |-> FromProto(kind)],
       lens |-> [L \in AllLens |-> ShardSize(L, Data(c))],
+      peerof |-> [pub \in 1..(n + 1) |-> [i \in 1..n |-> PeerOfShard(pub - 1, i - 1)]],
       sched |-> [NP \in 2..10 |-> [d |-> SchedData(NP), p |-> SchedParity(NP),
                                    build |-> BuildThreshold(NP), recv |-> ReceiveThreshold(NP)]]]
 
